@@ -168,20 +168,54 @@ def checkSufficient (io : Melange × Melange) : Except Err Unit :=
   | (_, _, none) => .ok ()
   | (_, _, some e) => .error [.doubleSpending, errOf e]
 
+def badParent (leaf : Option Vertex) (v : Vertex) : Bool :=
+  match leaf with
+  | some l => (v.hash == l.left || v.hash == l.right) && !v.vok
+  | none => false
+
+/-- The ancestor walk shared by validateLeaf and CalculateBalance: parents of the validated leaf are
+re-verified on the way, every visited vertex is poured into the running (in, out) pair. -/
 def foldFunds (b : Book) (a : Addr) (hs : List Hash) (io : Melange × Melange)
     (wrap : Err → Err) (leaf : Option Vertex) : Except Err (Melange × Melange) :=
-  hs.foldlM (fun io h =>
+  match hs with
+  | [] => .ok io
+  | h :: hs =>
     match b.getVertex h with
     | none => .error [.unexpected, .idUnknown]
     | some v =>
-      -- parents of the validated leaf are re-verified on the way
-      let bad := match leaf with
-        | some l => (v.hash == l.left || v.hash == l.right) && !v.vok
-        | none => false
-      if bad then .error [.leafRejected] else
+      if badParent leaf v then .error [.leafRejected] else
       match pourFunds a v io with
-      | .ok io' => .ok io'
-      | .error e => .error (wrap e)) io
+      | .ok io' => foldFunds b a hs io' wrap leaf
+      | .error e => .error (wrap e)
+
+/-- Pour `tip` itself, then walk its ancestors (the common core of validateLeaf and CalculateBalance).
+An error at the tip is returned as is, errors during the walk are wrapped. -/
+def walkFunds (b : Book) (a : Addr) (tip : Vertex) (io0 : Melange × Melange)
+    (wrap : Err → Err) (leaf : Option Vertex) : Except Err (Melange × Melange) :=
+  match pourFunds a tip io0 with
+  | .error e => .error e
+  | .ok io => foldFunds b a (b.ancestors tip.hash) io wrap leaf
+
+/-- Tail of CalculateBalance: checkpoint + in, then − out. -/
+def balFinish (cp : Melange) (io : Melange × Melange) : Except Err Melange :=
+  match cp.supply io.1 with
+  | (_, some e) => .error [.balanceFailure, errOf e]
+  | (s1, none) =>
+    match s1.drain io.2 Melange.zero with
+    | (_, _, some e) => .error [.balanceFailure, errOf e]
+    | (s2, _, none) => .ok s2
+
+/-- Funds branch of validateLeaf (accountant.go:342-413). -/
+def validateFunds (b : Book) (leaf : Vertex) : Except Err Unit :=
+  match Melange.zero.supply ((b.cpFundsGet leaf.trx.issuer).getD Melange.zero) with
+  | (_, some _) => .error [.overflow]
+  | (spiceIn, none) =>
+    match walkFunds b leaf.trx.issuer leaf (spiceIn, Melange.zero) (fun e => .transferFailure :: e) (some leaf) with
+    | .error e => .error e
+    | .ok io' =>
+      match checkSufficient io' with
+      | .ok () => .ok ()
+      | .error e => .error (.transferFailure :: e)
 
 /-- accountant.go validateLeaf (the book is not modified). -/
 def validateLeaf (b : Book) (leaf : Vertex) : Except Err Unit :=
@@ -191,20 +225,7 @@ def validateLeaf (b : Book) (leaf : Vertex) : Except Err Unit :=
   if !leaf.trx.isSpice || b.isTrusted leaf.signer then
     if !b.hasVertex leaf.right then .error [.leafRejected, .idUnknown] else
     if !b.hasVertex leaf.left then .error [.leafRejected, .idUnknown] else .ok ()
-  else
-    let s := (b.cpFundsGet leaf.trx.issuer).getD Melange.zero
-    match Melange.zero.supply s with
-    | (_, some _) => .error [.overflow]
-    | (spiceIn, none) =>
-      match pourFunds leaf.trx.issuer leaf (spiceIn, Melange.zero) with
-      | .error e => .error e
-      | .ok io =>
-        match foldFunds b leaf.trx.issuer (b.ancestors leaf.hash) io (fun e => .transferFailure :: e) (some leaf) with
-        | .error e => .error e
-        | .ok io' =>
-          match checkSufficient io' with
-          | .ok () => .ok ()
-          | .error e => .error (.transferFailure :: e)
+  else validateFunds b leaf
 
 /-- Result of getValidLeaves: book after dropping failing tips, first two valid tips, and the
 error of the *last validation performed* (the Go function assigns every validation result to its
@@ -364,19 +385,9 @@ def createGenesis (b : Book) (receiver : Addr) (spc : Melange) (vrx : Vertex) : 
 
 /-- accountant.go CalculateBalance over the tip the implementation happened to pick. -/
 def calculateBalance (b : Book) (tip : Vertex) (a : Addr) : Except Err Melange :=
-  match pourFunds a tip (Melange.zero, Melange.zero) with
+  match walkFunds b a tip (Melange.zero, Melange.zero) id none with
   | .error e => .error e
-  | .ok io =>
-    match foldFunds b a (b.ancestors tip.hash) io id none with
-    | .error e => .error e
-    | .ok (spiceIn, spiceOut) =>
-      let s := (b.cpFundsGet a).getD Melange.zero
-      match s.supply spiceIn with
-      | (_, some e) => .error [.balanceFailure, errOf e]
-      | (s1, none) =>
-        match s1.drain spiceOut Melange.zero with
-        | (_, _, some e) => .error [.balanceFailure, errOf e]
-        | (s2, _, none) => .ok s2
+  | .ok io => balFinish ((b.cpFundsGet a).getD Melange.zero) io
 
 /-! ### truncation (accountant.go truncate, precalculate.go) -/
 
